@@ -142,14 +142,16 @@ def run(ctx):
     for si, (tree, dst) in enumerate(stmts):
         # every fourth statement sits inside the block of a temporary (which then occupies a register, usually r0)
         scope = (None, "stmp", None, None, None, "tmp", None, None)[si % 8]
+        # a register destination that is also an operand (`r3 = 10 - r3`): every second such statement
+        alias = dst[0] == "reg" and si % 2 == 0
         try:
-            st = G.statement(tree, dst, scope=scope)
+            st = G.statement(tree, dst, scope=scope, alias_dst=alias)
         except G.NotGenerated as e:
             refused.append((repr(tree), repr(dst), str(e)[:120]))
             continue
         for vals in vectors(vrng, st, tree, nvec):
             cases.append(G.case(st, vals))
-            meta.append(dict(tree=tree, dst=dst, values=vals, depth=G.depth_of(tree), scope=scope))
+            meta.append(dict(tree=tree, dst=dst, values=vals, depth=G.depth_of(tree), scope=scope, dst_is_operand=alias))
     if not cases:
         raise T.MachineryError("no C01 case could be built")
     wd = ctx.workdir()
